@@ -15,6 +15,7 @@ CONSTANTS
   ConcGrid <- NoSet
   YieldK <- NoSet
   TerminalQueries = FALSE
+  AllowEmpty = FALSE
 INVARIANT Verdict
 INVARIANT WorkspaceWellFormed
 INVARIANT SplitPartitions
